@@ -1,17 +1,28 @@
 /-
-  C08, removal interleaved with a REORGANISATION: the concrete history that refutes "any interleaving of removal
-  steps with follower steps ends, after the finishing step, in C01's invariant for the table without the wallet".
+  C08, removal interleaved with a REORGANISATION: the concrete history that REFUTED "any interleaving of removal
+  steps with follower steps ends, after the finishing step, in C01's invariant for the table without the wallet"
+  for the model of the code before the D45 repair — and what the repaired model does on it.
 
   Wallets W1 (survivor), W2 (removed; address A2).  Chain G – B1[C1: cb → A2:100, A2:100, A1:50] – B2[C2, X3: C1:0, C1:1 → X1].
-  Removal of W2 with step size 1:
+  Removal of W2 with step size 1.
+
+  UNREPAIRED model (`Unrepaired.minedStep` … `Unrepaired.irun`: a tx record is erased as soon as nobody else needs it):
     step 1   deletes the credit C1:1 and its debit (X3, B2, 1); X3 is examined through that debit: nobody else needs
-             it, its tx record and B2's block record go.  C1's record stays (it pays W1).  Left of W2: credit C1:0
-             (spent by X3) and the debit (X3, B2, 0).
+             it, its tx record and B2's block record go (`Unrepaired.first_step_drops_record`).  C1's record stays (it
+             pays W1).  Left of W2: credit C1:0 (spent by X3) and the debit (X3, B2, 0).
     reorg    the node switches to G – B1' – B2'.  Rollback finds no block record at height 2 (X3 is NOT rolled back)
              and rolls back C1 at height 1: the credit C1:0 is erased.  The debit (X3, B2, 0) now points at nothing.
-    step 2   finishes (no credit of W2 is left): the debit stays for ever.
-  The final store is NOT the books of the chain for W1's keystore: `interleaved_not_inv`.
-  (Replayed on the real code with 20 003 credits: corpus-candidates/C08-reorg-between-steps-dangling-debit.ops.)
+    step 2   finishes (no credit of W2 is left): the debit stays for ever (`Unrepaired.unrepaired_leaves_debit`).
+  The final store is NOT the books of the chain for W1's keystore: `Unrepaired.interleaved_not_inv`.
+  (Replayed on the unrepaired code with 20 003 credits: corpus-candidates/C08-reorg-between-steps-dangling-debit.ops.)
+
+  REPAIRED model (`MW.Model.Remove.minedStep`: the record stays while a credit / debit under its key is left):
+    step 1   X3's tx record and B2's block record stay (`first_step_keeps_record`);
+    reorg    rolls X3 back like any other keystore's transaction: debit and credit go;
+    step 2   finishes on empty buckets.
+  The final store has the ten fields `Inv` reads in common with the store the follower builds for chain B from
+  scratch with W1's keystore only (`stB`, `run_eq_stB_*`): the history ends in C01's invariant for the table
+  without W2 on chain B — `interleaved_inv`.
 -/
 import MW.Lemmas.RemoveInterleave
 import MW.Lemmas.LedgerHistoryEx
@@ -184,15 +195,226 @@ theorem run_result :
 theorem run_buckets :
     (irun 1 ctx "W2" ["A2"] x0 evs).map (fun x => (x.s.credits.map (·.1.tx),
        x.s.debits.map (fun e => (e.1.tx, e.1.blk.hash, e.1.idx)), x.s.txrecs.map (·.1.1))) =
-    some ([], [("X3", "B2", 0)], []) := by decide
+    some ([], [], []) := by decide
+
+theorem run_pending :
+    (irun 1 ctx "W2" ["A2"] x0 evs).map (fun x => (x.s.pending.map (·.1), x.s.pendCred.map (·.1), x.s.blocks.map (·.1))) =
+    some ([], [], []) := by decide
+
+/-- after the first step (step size 1) X3's tx record and B2's block record are STILL there (D45 repair: the debit
+    (X3, B2, 0) is left), so the reorganisation rolls X3 back like any other keystore's transaction -/
+theorem first_step_keeps_record :
+    (irun 1 ctx "W2" ["A2"] x0 [.rem]).map (fun x => (x.fin, x.s.credits.map (fun e => (e.1.tx, e.1.idx)))) =
+      some (false, [("C1", 0), ("C1", 2)]) ∧
+    (irun 1 ctx "W2" ["A2"] x0 [.rem]).map (fun x => x.s.debits.map (fun e => (e.1.tx, e.1.blk.hash, e.1.idx))) =
+      some [("X3", "B2", 0)] ∧
+    (irun 1 ctx "W2" ["A2"] x0 [.rem]).map (fun x => (x.s.txrecs.map (·.1.1), x.s.blocks.map (·.1))) =
+      some (["X3", "C1"], [2, 1]) := ⟨by decide, by decide, by decide⟩
 
 /-- the books of chain B for W1's keystore have no debit at all under that key -/
 theorem books_no_debit : (bookOf ctx.p own' chainB).debits ⟨"X3", ⟨2, "B2"⟩, 0⟩ = none := by decide
 
-/-- **the interleaved removal does NOT end in C01's invariant for the table without the wallet** -/
+theorem run_some : (irun 1 ctx "W2" ["A2"] x0 evs).isSome = true := by decide
+
+theorem own_nodup : KeysNodup own := by unfold KeysNodup; decide
+
+/-- `Inv` reads the store only through these ten fields (not the address records, not the unmined buckets) -/
+theorem inv_of_fields {c : Ctx} {s s' : Store} {chain : List Block} (hI : Inv c s chain)
+    (h1 : s'.unspent = s.unspent) (h2 : s'.credits = s.credits) (h3 : s'.debits = s.debits) (h4 : s'.game = s.game)
+    (h5 : s'.txrecs = s.txrecs) (h6 : s'.blocks = s.blocks) (h7 : s'.balance = s.balance) (h8 : s'.status = s.status)
+    (h9 : s'.sync = s.sync) (h10 : s'.syncedTo = s.syncedTo) : Inv c s' chain := by
+  refine ⟨⟨?_, ?_, ?_, ?_, ?_, ?_⟩, ?_, ?_, ?_⟩
+  · rw [h1]; exact hI.agree.unspent
+  · rw [h2]; exact hI.agree.credits
+  · rw [h3]; exact hI.agree.debits
+  · rw [h4]; exact hI.agree.game
+  · rw [h5]; exact hI.agree.txrecs
+  · rw [h6]; exact hI.agree.blocks
+  · intro w hw
+    rw [readyWallets_congr h8] at hw
+    rw [h7]; exact hI.bal w hw
+  · rw [h9]; exact hI.sync
+  · rw [h10]; exact hI.syncedTo
+
+/-- the table without W2, the node on chain B -/
+def ctxB : Ctx := ⟨ctx.p, own', ["W1"], nodeB⟩
+
+def s0B : Store := { balance := [("W1", 0)], sync := [(0, "G")], syncedTo := 0, status := [("W1", ⟨none, false⟩)] }
+
+/-- the store the follower builds for chain B from scratch, W1's keystore only -/
+def stB : Store :=
+  match connectAll ctxB (readyWallets s0B ctxB.wallets) [b1', b2'] s0B [] with
+  | .ok (s, _) => s
+  | .error _ => s0B
+
+theorem ready0B : readyWallets s0B ["W1"] = ["W1"] := by decide
+
+theorem allReadyB : AllReady own' ["W1"] := by
+  intro a w ch h
+  have ho : own' = [("A1", ("W1", false))] := by decide
+  rw [ho] at h
+  simp only [AMap.get_cons, AMap.get_nil] at h
+  split at h
+  · simp only [Option.some.injEq, Prod.mk.injEq] at h; rw [← h.1]; rfl
+  · cases h
+
+theorem freshB : FreshStore ctxB s0B g where
+  credits := rfl
+  unspent := rfl
+  debits := rfl
+  game := rfl
+  txrecs := rfl
+  blocks := rfl
+  sync := rfl
+  syncedTo := rfl
+  balance := by
+    intro w hw
+    change (readyWallets s0B ["W1"]).contains w = true at hw
+    rw [ready0B] at hw
+    have : w = "W1" := by simpa using hw
+    subst this; rfl
+  genesis := rfl
+
+theorem validB' : ChainValid own' chainB := by decide
+
+theorem inv_stB : Inv ctxB stB chainB := by
+  obtain ⟨s', added, h, hI, _, _⟩ := connectAll_sound (c := ctxB) [b1', b2'] s0B [g] [] []
+    (inv_fresh freshB) rfl validB' goodB.heights
+    (by show AllReady own' (readyWallets s0B ["W1"]); rw [ready0B]; exact allReadyB)
+    (by show (readyWallets s0B ["W1"]).isEmpty = false; rw [ready0B]; rfl)
+  have hs : stB = s' := by unfold stB; rw [h]
+  rw [hs]; exact hI
+
+theorem run_eq_stB_1 : (irun 1 ctx "W2" ["A2"] x0 evs).map (fun x =>
+    decide (x.s.unspent = stB.unspent) && decide (x.s.credits = stB.credits) && decide (x.s.debits = stB.debits)) = some true := by
+  decide
+theorem run_eq_stB_2 : (irun 1 ctx "W2" ["A2"] x0 evs).map (fun x =>
+    decide (x.s.game = stB.game) && decide (x.s.txrecs = stB.txrecs) && decide (x.s.blocks = stB.blocks)) = some true := by
+  decide
+theorem run_eq_stB_3 : (irun 1 ctx "W2" ["A2"] x0 evs).map (fun x =>
+    decide (x.s.balance = stB.balance) && decide (x.s.status = stB.status) && decide (x.s.sync = stB.sync) &&
+    decide (x.s.syncedTo = stB.syncedTo)) = some true := by
+  decide
+
+theorem interleaved_inv (x : ISt) (h : irun 1 ctx "W2" ["A2"] x0 evs = some x) :
+    x.fin = true ∧ x.node = nodeB ∧ Inv { ctx with own := own', wallets := ["W1"], node := x.node } x.s x.node.chain := by
+  have hr := run_result
+  have e1 := run_eq_stB_1
+  have e2 := run_eq_stB_2
+  have e3 := run_eq_stB_3
+  rw [h] at hr e1 e2 e3
+  simp only [Option.map_some, Option.some.injEq, Prod.mk.injEq] at hr
+  simp only [Option.map_some, Option.some.injEq, Bool.and_eq_true, decide_eq_true_eq] at e1 e2 e3
+  have hnode : x.node = nodeB := irun_node evs x0 x h
+  refine ⟨hr.1, hnode, ?_⟩
+  rw [hnode]
+  show Inv ctxB x.s chainB
+  exact inv_of_fields inv_stB e1.1.1 e1.1.2 e1.2 e2.1.1 e2.1.2 e2.2 e3.1.1.1 e3.1.1.2 e3.1.2 e3.2
+
+/-! ### the UNREPAIRED model (tx records erased although a credit / debit under their key is left) on the same history -/
+namespace Unrepaired
+
+/-- `MW.Model.Remove.minedStep` before the D45 repair: no `inUse` test -/
+def minedStep (c : Ctx) (addrs : List Addr) (acc : Store × List (Nat × TxId)) (e : TxId × Nat) :
+    Option (Store × List (Nat × TxId)) :=
+  match txRecordAt acc.1 e.1 e.2 with
+  | none => some acc
+  | some rec =>
+    match c.node.txByFileLoc rec.2 with
+    | none => none
+    | some tx =>
+      if removable c.own acc.1 addrs tx then
+        some ({ acc.1 with txrecs := AMap.erase acc.1.txrecs rec.1 }, acc.2 ++ [(rec.1.2.height, e.1)])
+      else some acc
+
+def removeMinedTxs (c : Ctx) (s : Store) (addrs : List Addr) (heightOf : AMap.T TxId Nat) :
+    Option (Store × List (Nat × TxId)) :=
+  heightOf.foldlM (minedStep c addrs) (s, [])
+
+def removeRelevantTx (limit : Nat) (c : Ctx) (s : Store) (addrs : List Addr) : Option StepOut :=
+  if addrs.isEmpty then some ⟨s, [], true⟩
+  else
+    let (s, uh) := removeRelevantUnminedCredit s addrs
+    let (s, del1) := removeUnminedTxs c.own s addrs uh
+    let sc := removeRelevantCredit limit s addrs
+    if sc.failed then none
+    else
+      let (s, del3) := removeUnminedTxs c.own sc.s addrs sc.spenders
+      match removeMinedTxs c s addrs sc.heightOf with
+      | none => none
+      | some (s, del2) => some ⟨checkBlockRecords s del2, del1 ++ del3 ++ del2.map (·.2), sc.finish⟩
+
+def removeStep (limit : Nat) (c : Ctx) (w : Wid) (addrs : List Addr) (s : Store) : Option StepOut :=
+  match removeRelevantTx limit c s addrs with
+  | none => none
+  | some o =>
+    if o.finish then
+      let s := removeWalletIndexes o.s w
+      some { o with s := { s with status := AMap.erase s.status w } }
+    else some o
+
+/-- `istep` with the unrepaired removal step (the follower events are those of `istep`) -/
+def istep (limit : Nat) (c : Ctx) (w : Wid) (addrs : List Addr) (x : ISt) : IEv → Option ISt
+  | .rem =>
+    if x.fin then none
+    else match removeStep limit { c with node := x.node } w addrs x.s with
+      | none => none
+      | some o => some { x with s := o.s, v := removeMempool x.v o.removedTx, fin := o.finish }
+  | ev => RemoveInterleave.istep limit c w addrs x ev
+
+def irun (limit : Nat) (c : Ctx) (w : Wid) (addrs : List Addr) : ISt → List IEv → Option ISt
+  | x, [] => some x
+  | x, ev :: evs =>
+    match istep limit c w addrs x ev with
+    | none => none
+    | some x' => irun limit c w addrs x' evs
+
+/-- the unrepaired model: the history runs, its last step is the finishing one — and the debit (X3, B2, 0) of the
+    removed wallet's coin is still in the store -/
+theorem unrepaired_leaves_debit : (Unrepaired.irun 1 ctx "W2" ["A2"] x0 evs).map (fun x => (x.fin,
+    x.s.credits.map (·.1.tx), x.s.debits.map (fun e => (e.1.tx, e.1.blk.hash, e.1.idx)))) = some (true, [], [("X3", "B2", 0)]) := by
+  decide
+
+/-- after the first unrepaired step X3's tx record and B2's block record are gone although the debit (X3, B2, 0) is left -/
+theorem first_step_drops_record :
+    (irun 1 ctx "W2" ["A2"] x0 [.rem]).map (fun x => (x.s.debits.map (fun e => (e.1.tx, e.1.blk.hash, e.1.idx)),
+      x.s.txrecs.map (·.1.1), x.s.blocks.map (·.1))) = some ([("X3", "B2", 0)], ["C1"], [1]) := by decide
+
+theorem istep_node {limit : Nat} {c : Ctx} {w : Wid} {addrs : List Addr} {x x' : ISt} {ev : IEv}
+    (h : istep limit c w addrs x ev = some x') : x'.node = lastNode x.node [ev] := by
+  cases ev with
+  | rem =>
+    simp only [istep] at h
+    split at h
+    · cases h
+    · split at h
+      · cases h
+      · injection h with h; rw [← h]; rfl
+  | notify n b => exact RemoveInterleave.istep_node (limit := limit) (c := c) (w := w) (addrs := addrs) (ev := .notify n b) h
+  | recv t => exact RemoveInterleave.istep_node (limit := limit) (c := c) (w := w) (addrs := addrs) (ev := .recv t) h
+  | restart v => exact RemoveInterleave.istep_node (limit := limit) (c := c) (w := w) (addrs := addrs) (ev := .restart v) h
+
+theorem irun_node {limit : Nat} {c : Ctx} {w : Wid} {addrs : List Addr} :
+    ∀ (evs : List IEv) (x x' : ISt), irun limit c w addrs x evs = some x' → x'.node = lastNode x.node evs := by
+  intro evs
+  induction evs with
+  | nil => intro x x' h; simp only [irun] at h; injection h with h; rw [← h]; rfl
+  | cons ev evs ih =>
+    intro x x' h
+    simp only [irun] at h
+    cases hs : istep limit c w addrs x ev with
+    | none => rw [hs] at h; cases h
+    | some x1 =>
+      rw [hs] at h
+      have h1 := istep_node hs
+      have h2 := ih x1 x' h
+      rw [h2, h1]
+      cases ev <;> rfl
+
+/-- **on the unrepaired model the interleaved removal does NOT end in C01's invariant for the table without the wallet** -/
 theorem interleaved_not_inv (x : ISt) (h : irun 1 ctx "W2" ["A2"] x0 evs = some x) :
     x.fin = true ∧ x.node = nodeB ∧ ¬ Inv { ctx with own := own', wallets := ["W1"], node := x.node } x.s x.node.chain := by
-  have hr := run_result
+  have hr := unrepaired_leaves_debit
   rw [h] at hr
   simp only [Option.map_some, Option.some.injEq, Prod.mk.injEq] at hr
   have hnode : x.node = nodeB := irun_node evs x0 x h
@@ -212,17 +434,6 @@ theorem interleaved_not_inv (x : ISt) (h : irun 1 ctx "W2" ["A2"] x0 evs = some 
 
 theorem run_some : (irun 1 ctx "W2" ["A2"] x0 evs).isSome = true := by decide
 
-theorem own_nodup : KeysNodup own := by unfold KeysNodup; decide
-
-/-- the full interleaving statement is FALSE of the model: this history meets every hypothesis -/
-theorem not_interleavedProjects : ¬ InterleavedProjects := by
-  intro h
-  cases hr : irun 1 ctx "W2" ["A2"] x0 evs with
-  | none => have := run_some; rw [hr] at this; cases this
-  | some x =>
-    obtain ⟨hfin, _, hnot⟩ := interleaved_not_inv x hr
-    exact hnot (h 1 ctx "W2" ["A2"] own' g x0 x evs ["W1"] (by decide) own_nodup remHyp goodA rfl rfl rfl rfl
-      inv_stF stF_nodup stF_unspent_nodup stF_pend stF_flagged others_ready evs_ok
-      (by intro y hy; simp at hy; subst hy; decide) hr hfin)
+end Unrepaired
 
 end MW.Lemmas.RemoveMidCex
